@@ -165,6 +165,21 @@ def build(P):
             cases.append(Case(id="C01-tf-%d" % i, prog=b"OPENFILE \"t.txt\" FOR READ\nWHILE NOT EOF(\"t.txt\")\nREADFILE \"t.txt\", s\nOUTPUT LENGTH(s)\nENDWHILE\n", files={"t.txt": ("f", content)}))
         for ch in chunks(cases, 500):
             yield ("data-files", ch)
+        # (e) first-assignment matrix: a variable declared implicitly by its first assignment (a value of every kind: enum literal / variable of two enum types, record and
+        #     pointer variables of two types each, an array element, the primitives) and then assigned a value of every kind, used, and passed on
+        pre = ["TYPE Col = (Red, Green)", "TYPE Shp = (Sq, Tri, Dot)", "DECLARE ecol : Col", "DECLARE eshp : Shp", "ecol <- Green", "eshp <- Tri",
+               "TYPE RecA\nDECLARE f : INTEGER\nENDTYPE", "TYPE RecB\nDECLARE f : INTEGER\nENDTYPE", "DECLARE ra : RecA", "DECLARE rb : RecB", "TYPE PI = ^INTEGER", "TYPE PS = ^STRING",
+               "DECLARE pi : PI", "DECLARE ps : PS", "n0 <- 5", "s0 <- \"s\"", "pi <- ^n0", "ps <- ^s0", "DECLARE arr : ARRAY[1:2] OF Col", "arr[1] <- Red"]
+        pre_lines = []
+        for e in pre: pre_lines += e.split("\n")
+        vals = ["Red", "Sq", "ecol", "eshp", "ecol + 1", "ra", "rb", "pi", "ps", "arr[1]", "5", "2.5", "\"str\"", "'c'", "TRUE", "1/1/2020", "^n0"]
+        cases = []
+        for i, a in enumerate(vals):
+            for j, b in enumerate(vals):
+                L = pre_lines + ["x <- %s" % a, "OUTPUT \"first\"", "x <- %s" % b, "OUTPUT \"second\"", "y <- x", "OUTPUT \"copied\"", "x <- %s" % a, "OUTPUT \"third\""]
+                cases.append(Case(id="C01-first-%d-%d" % (i, j), prog=("\n".join(L) + "\n").encode(), meta=dict(units=["first/%d/%d" % (i, j)])))
+        for ch in chunks(cases, 300):
+            yield ("first-assignment", ch)
 
     SETUP_LINES = []
     for s in SETUP:
